@@ -27,7 +27,7 @@ ASSUMPTIONS = ['the oracle is a freshly constructed real monitor fed only the po
                'only supported specifications are generated (unsupported ones belong to C17)']
 REAL = common.REAL_ALL
 STUBS = common.STUBS_ALL
-PROBES = ['reset_before_first_update', 'double_reset', 'with_subspecs', 'pastified', 'dense_time', 'counter_nonzero_before_reset',
+PROBES = ['reset_before_first_update', 'double_reset', 'second_reset_after_more_updates', 'with_subspecs', 'pastified', 'dense_time', 'counter_nonzero_before_reset',
           'reset_matters']
 INTERLEAVING_MEASURE = 'distinct (time domain, reset position, pre-history length, double-reset) tuples'
 
@@ -78,8 +78,10 @@ def gen(rng, tier):
         t2, _ = world.faulty_clock(rng, npost, kinds=[k for k in ('jitter_out', 'offset') if rng.random() < 0.5])
         pre = [[t1[i], dict((v, data[v][i]) for v in vars_)] for i in range(m)]
         post = [[t2[i], dict((v, data[v][m + i]) for v in vars_)] for i in range(npost)]
+    # a middle episode: pre, reset, mid, reset, post (state must not leak across two resets either)
+    mid_len = rng.randint(1, 4) if rng.random() < 0.5 else 0
     return {'dense': dense, 'cls': cls, 'vars': vars_, 'ast': ast, 'modular': modular, 'pastify': pastify, 'pre': pre,
-            'post': post, 'double_at': rng.randint(0, m), 'text': None, 'spell_seed': rng.randrange(1 << 30)}
+            'post': post, 'double_at': rng.randint(0, m), 'text': None, 'spell_seed': rng.randrange(1 << 30), 'mid_len': mid_len}
 
 
 def spec_desc(sc):
@@ -164,10 +166,14 @@ def run(sc):
         return r
     r.obs.append(want)
     m = len(pre)
-    positions = [(p, 1) for p in range(m + 1)] + [(min(sc.get('double_at', 0), m), 2)]
+    positions = [(p, 1, False) for p in range(m + 1)] + [(min(sc.get('double_at', 0), m), 2, False)]
+    mid = post[:sc.get('mid_len', 0)] if sc.get('mid_len') else []
+    if mid:
+        # episodes: pre[:p], reset, mid (= a prefix of the post inputs), reset, post
+        positions += [(p, 1, True) for p in sorted(set([0, m, m // 2]))]
     matters = False
-    for p, times in positions:
-        r.interleavings.add('%s|p=%d|m=%d|x%d' % ('ct' if dense else 'dt', p, m, times))
+    for p, times, use_mid in positions:
+        r.interleavings.add('%s|p=%d|m=%d|x%d|mid=%s' % ('ct' if dense else 'dt', p, m, times, len(mid) if use_mid else 0))
         r.faults['reset'] += times
         try:
             mon = M.build(desc)
@@ -189,6 +195,17 @@ def run(sc):
                     r.violate('counter-restarts-at-0', position=p, resets=times, counter=mon.sampling_violation_counter,
                               spec=desc, pre=pre[:p])
                     return r
+            if use_mid:
+                r.probes['second_reset_after_more_updates'] += 1
+                for i, u in enumerate(mid):
+                    o = step(mon, sc, u)
+                    r.evals += 1
+                    if not same(o, want[i][0], dense) or mon.sampling_violation_counter != want[i][1]:
+                        r.violate('post-reset-output-equals-fresh', position=p, resets=1, episode='middle', step=i, got=o, want=want[i][0],
+                                  spec=desc, pre=pre[:p], post=post)
+                        return r
+                M.api('reset', mon.reset)
+                r.faults['reset'] += 1
             got = []
             for u in post:
                 o = step(mon, sc, u)
@@ -203,8 +220,8 @@ def run(sc):
         for i, (g, w) in enumerate(zip(got, want)):
             r.evals += 1
             if not same(g[0], w[0], dense):
-                r.violate('post-reset-output-equals-fresh', position=p, resets=times, step=i, got=g[0], want=w[0], spec=desc,
-                          pre=pre[:p], post=post)
+                r.violate('post-reset-output-equals-fresh', position=p, resets=times, episode=('after second reset' if use_mid else 'after reset'),
+                          step=i, got=g[0], want=w[0], spec=desc, pre=pre[:p], post=post)
                 return r
             if g[1] != w[1]:
                 r.violate('post-reset-counter-equals-fresh', position=p, resets=times, step=i, got=g[1], want=w[1], spec=desc,
@@ -240,6 +257,11 @@ def run(sc):
 
 
 def shrinks(sc):
+    if sc.get('mid_len'):
+        for ml in (0, sc['mid_len'] - 1):
+            c = copy.deepcopy(sc)
+            c['mid_len'] = ml
+            yield c
     if sc.get('modular'):
         c = copy.deepcopy(sc)
         c['modular'] = None
